@@ -122,7 +122,7 @@ class FnTranslator:
                 return f"(pyMin {args[0]} {args[1]})", flags
             if fname == "max" and len(args) == 2:
                 return f"(pyMax {args[0]} {args[1]})", flags
-            if fname == "binom" and len(args) == 2:
+            if fname in ("math.comb", "comb") and len(args) == 2:
                 return f"(pyBinom {args[0]} {args[1]})", flags
             if fname in self.known:
                 if self.known[fname]:
@@ -561,7 +561,7 @@ def translate_z_matrix(tree):
     val2, f2 = tr.expr(last.body[0].value, env2)
     need(not f2, "total value")
     return (f"/-- `src/fqe/fci_graph.py`, `_get_Z_matrix` (line {fn.lineno}), reference branch: the ranges of the two loop nests, the\n"
-            "    index each iteration assigns and the value it assigns (`binom` = scipy's, see PyPrelude.pyBinom) -/\n"
+            "    index each iteration assigns and the value it assigns (`math.comb` = PyPrelude.pyBinom) -/\n"
             f"def z1_rows (norb nele : Int) : List Int := {rows1}\n"
             f"def z1_cols (norb nele k : Int) : List Int := {cols1}\n"
             f"def z1_index (norb nele k ll : Int) : Int × Int := {idx1}\n"
